@@ -71,6 +71,10 @@ class DBusProperty:
         instance._dbusProperties[self.key] = value
 
         if self.iprop.emits == 'true':
+            if self.iprop.sig in marshal.variantClassMap:
+                # announce the value under the declared type, as Get does
+                value = marshal.variantClassMap[self.iprop.sig](value)
+
             instance.emitSignal(
                 'PropertiesChanged',
                 self.interface,
